@@ -146,11 +146,15 @@ def make_filter_class(script, rec, w=None, meta=None):
     return Scripted
 
 
-def run_script(script, with_lineage=True, beats=0, race=False, slow=False):
-    """-> dict(trace, result, stop_set, open_sockets, announced, events)"""
+def run_script(script, with_lineage=True, beats=0, race=False, slow=False, late=False, reuse=None):
+    """-> dict(trace, result, stop_set, open_sockets, announced, events)
+    late: the heartbeat thread is slow to get going (a loaded machine) - nothing of the run's history may depend on it;
+    reuse: (emitter, client) of an earlier run of this process - Filter.emitter is one object per process, a second
+    run (supervisor / retry loop) goes through the same emitter."""
     rec = []
     w = LifeWorld()
-    cap = CaptureClient()
+    cap = reuse[1] if reuse else CaptureClient()
+    n_before = len(cap.events)
     meta = {}
     cls = make_filter_class(script, rec, w, meta)
     saved_emitter = Filter.emitter
@@ -180,15 +184,34 @@ def run_script(script, with_lineage=True, beats=0, race=False, slow=False):
         of_filter.time = fake_time
         if with_lineage:
             # slow=True: a backend that takes longer than one heartbeat interval to accept an event (the terminal event waits for it)
-            emitter = OpenFilterLineage(client=cap, interval=0.02 if slow else 3600)
+            emitter = reuse[0] if reuse else OpenFilterLineage(client=cap, interval=0.02 if slow else 3600)
             cap.slow_s = 0.08 if slow else 0.004
-            if beats or race:
+            if late:
+                import time as _rt
+                loop0 = emitter._heartbeat_loop
+                def late_loop():
+                    _rt.sleep(0.03)
+                    return loop0()
+                emitter._heartbeat_loop = late_loop
+            if reuse:
+                ev = emitter._stop_event
+                real_wait0 = getattr(emitter, '_verif_real_wait', None) or ev.wait
+                emitter._verif_real_wait = real_wait0
+                n2 = [0]
+                def wait2(t=None):
+                    n2[0] += 1
+                    if n2[0] <= beats:
+                        return ev.is_set()
+                    return real_wait0(t)
+                ev.wait = wait2
+            elif beats or race:
                 # force `beats` extra RUNNING heartbeats, then block like a long interval; with race=True one more
                 # heartbeat pass is released exactly when the main thread starts ending the run, and that RUNNING
                 # is held inside the (slow) client while the terminal event is emitted
                 ev = emitter._stop_event
                 n = [0]
                 real_wait = ev.wait
+                emitter._verif_real_wait = real_wait
                 hb_go, in_running = threading.Event(), threading.Event()
                 if race:
                     cap.hb_go, cap.in_running = hb_go, in_running
@@ -241,7 +264,7 @@ def run_script(script, with_lineage=True, beats=0, race=False, slow=False):
         Filter.emitter = saved_emitter
     return dict(trace=rec, result=result, stop_set=stop_evt.is_set(),
                 open_sockets=[repr(s) for s in w.sockets if not s.closed],
-                announced=list(w.pub_msgs), events=list(cap.events), meta=meta)
+                announced=list(w.pub_msgs), events=list(cap.events[n_before:]), meta=meta, emitter=(emitter, cap))
 
 
 # ---------------------------------------------------------------- script space
